@@ -72,6 +72,13 @@ pub fn check_c03(text: &str, out: &mut Vec<Failure>) -> bool {
                     // node per byte; far more diagnostics than that means that parts of the program
                     // are analysed over and over (the bound is generous: the double library
                     // include yields 32 diagnostics from one statement)
+                    // a placeholder in the graph stands for a construct the analyser does not
+                    // support: it comes with a diagnostic
+                    let dbg = format!("{:?}", res.program());
+                    let n_placeholders = dbg.matches("NullExpr").count() + dbg.matches("NullStmt").count();
+                    if n_placeholders > 0 && n_diag == 0 {
+                        out.push(Failure::new("C03:unsupported-construct-without-diagnostic", detail(format!("{n_placeholders} placeholders in the graph, no semantic diagnostic"))));
+                    }
                     if n_diag > 64 + 8 * text.len() {
                         out.push(Failure::new("C03:diagnostics-grow-faster-than-the-program", detail(format!("{n_diag} semantic diagnostics for {} bytes of source", text.len()))));
                     }
@@ -90,7 +97,7 @@ pub fn replay_c03(v: &serde_json::Value) -> Result<Vec<Failure>, String> {
 }
 
 pub fn run_c03(ctx: &RunCtx) {
-    ctx.set_rule("(a) generated programs of the supported subset with 0-3 injected semantic faults (semgen); (b) programs of the wider grammar: every statement and expression form the parser accepts, all operators in all operand positions, extreme literals, designators that are expressions/calls/negative/huge, shadowed built-ins; (c) mutated snippets and token soup filtered by the implementation itself to those with zero syntax diagnostics (yield reported). oracle: analysis returns under catch_unwind, program/symbol table/diagnostics are readable, scope depth is 1, and the number of semantic diagnostics stays below 64 + 8 per source byte (repeated analysis of nested parts shows up as diagnostic blow-up). non-trivial = zero syntax diagnostics and >=1 statement; distinct by text");
+    ctx.set_rule("(a) generated programs of the supported subset with 0-3 injected semantic faults (semgen); (b) programs of the wider grammar: every statement and expression form the parser accepts, all operators in all operand positions, extreme literals, designators that are expressions/calls/negative/huge, shadowed built-ins; (c) mutated snippets and token soup filtered by the implementation itself to those with zero syntax diagnostics (yield reported). oracle: analysis returns under catch_unwind, program/symbol table/diagnostics are readable, scope depth is 1, the number of semantic diagnostics stays below 64 + 8 per source byte (repeated analysis of nested parts shows up as diagnostic blow-up), and a placeholder (NullExpr / NullStmt) in the graph — the mark of a construct the analyser does not support — never comes without a semantic diagnostic, also when the construct sits in an included file at depth 1-3 (file-system arrangements shared with C18). non-trivial = zero syntax diagnostics and >=1 statement; distinct by text");
     ctx.assume("'syntax-error-free' is decided by the implementation's own parse_check_lex: have_parse and no diagnostics");
     // (b) wider grammar, syntactic generator with switches on (so that programs parse cleanly)
     let n = ctx.pick(300_000u64, 10_000_000u64);
@@ -109,6 +116,8 @@ pub fn run_c03(ctx: &RunCtx) {
     });
     // (a) semantic generator
     crate::semprops::run_c03_semgen(ctx);
+    // include arrangements: crashes and unreported unsupported constructs at any include depth
+    crate::fsprops::run_c03_includes(ctx);
     // extreme literal / designator templates
     let templates = extreme_templates();
     ctx.par_units(templates.len(), |i, st| {
